@@ -486,3 +486,34 @@ V('c16-module-counter', 'C16', 'hl7apy/mllp.py',
   rule='C16-T')
 V('c16-twin-recv-size', 'C16', 'hl7apy/mllp.py', "            line = self.request.recv(3)", "            line = self.request.recv(1)",
   expect='clean')
+
+# ---------------------------------------------------------------- C07
+V('c07-getter-transposed', 'C07', 'hl7apy/core.py', "            'REPETITION': msh_2[1],\n            'ESCAPE': msh_2[2],",
+  "            'REPETITION': msh_2[2],\n            'ESCAPE': msh_2[1],", rule='C07-K')
+V('c07-setter-transposed', 'C07', 'hl7apy/core.py',
+  "            value = '{0}{1}{2}{3}'.format(encoding_chars['COMPONENT'],\n                                          encoding_chars['REPETITION'],\n                                          encoding_chars['ESCAPE'],\n                                          encoding_chars['SUBCOMPONENT'])",
+  "            value = '{0}{1}{2}{3}'.format(encoding_chars['COMPONENT'],\n                                          encoding_chars['REPETITION'],\n                                          encoding_chars['SUBCOMPONENT'],\n                                          encoding_chars['ESCAPE'])",
+  rule='C07-K')
+V('c07-parser-unpack-order', 'C07', 'hl7apy/parser.py', "            comp_sep, rep_sep, escape, sub_sep = seps\n            trunc_sep = None",
+  "            comp_sep, rep_sep, sub_sep, escape = seps\n            trunc_sep = None", rule='C07-K')
+V('c07-parser-dict-swapped', 'C07', 'hl7apy/parser.py', "            'SUBCOMPONENT': sub_sep,\n            'REPETITION': rep_sep,",
+  "            'SUBCOMPONENT': rep_sep,\n            'REPETITION': sub_sep,", rule='C07-K')
+V('c07-threshold-gt', 'C07', 'hl7apy/core.py', "        if self.version >= '2.7' and len(msh_2) == 5:", "        if self.version > '2.7' and len(msh_2) == 5:",
+  rule='C07-T')
+V('c07-threshold-28', 'C07', 'hl7apy/__init__.py', "    if version and version >= '2.7':", "    if version and version >= '2.8':", rule='C07-T')
+V('c07-setter-always-truncation', 'C07', 'hl7apy/core.py', "        if self.version >= '2.7' and 'TRUNCATION' in encoding_chars:",
+  "        if 'TRUNCATION' in encoding_chars:", rule='C07-E')
+V('c07-getter-ignores-length', 'C07', 'hl7apy/core.py', "        if self.version >= '2.7' and len(msh_2) == 5:", "        if self.version >= '2.7':",
+  rule='C07-E')
+V('c07-unguarded-truncation-read', 'C07', 'hl7apy/core.py',
+  "        separator = encoding_chars.get('FIELD')\n        repetition = encoding_chars.get('REPETITION')",
+  "        separator = encoding_chars.get('FIELD')\n        trunc = encoding_chars['TRUNCATION']\n        repetition = encoding_chars.get('REPETITION')",
+  rule='C07-R')
+V('c07-required-shrinks', 'C07', 'hl7apy/__init__.py', "    required = {'FIELD', 'COMPONENT', 'SUBCOMPONENT', 'REPETITION', 'ESCAPE'}",
+  "    required = {'FIELD', 'COMPONENT', 'SUBCOMPONENT', 'REPETITION'}", rule='C07-R')
+V('c07-segment-private-copy', 'C07', 'hl7apy/core.py',
+  "    def _handle_empty_children(self, encoding_chars=None):\n        return ''\n\n\nclass Group(Element):",
+  "    def _handle_empty_children(self, encoding_chars=None):\n        return ''\n\n    @property\n    def encoding_chars(self):\n        return get_default_encoding_chars(self.version)\n\n\nclass Group(Element):",
+  rule='C07-I')
+V('c07-fix-duplicates', 'C07', 'hl7apy/__init__.py', "    values = [v for k, v in encoding_chars.items() if k in required]",
+  "    values = [v for k, v in encoding_chars.items() if k in required or k == 'TRUNCATION']", expect='fixed:C07-R|duplicates')
